@@ -66,11 +66,12 @@ type cacheCase struct {
 }
 
 type cacheWorld struct {
-	fired  bool
-	remote fsx.FS
-	plan   *fsx.FaultPlan
-	cache  *fscache.Cache
-	d      *fsx.Dict
+	closeFaults bool
+	fired       bool
+	remote      fsx.FS
+	plan        *fsx.FaultPlan
+	cache       *fscache.Cache
+	d           *fsx.Dict
 }
 
 func newCacheWorld(remote0 fsx.Tree) (*cacheWorld, error) {
@@ -95,7 +96,12 @@ func (w *cacheWorld) do(op histOp) (res fsx.Res) {
 		}
 	}()
 	if op.Name == "commit" {
-		w.plan.Arm("*mut", op.K)
+		// the injected failure of a stream sits alternately at its open and at its close (flush)
+		if w.closeFaults {
+			w.plan.Arm("*mutclose", op.K)
+		} else {
+			w.plan.Arm("*mut", op.K)
+		}
 		err := w.cache.Commit()
 		w.fired = w.plan.Fired
 		w.plan.Arm("", 0)
@@ -248,6 +254,8 @@ func cmdCacheCases(args []string) error {
 			continue
 		}
 		last := c.Hist[len(c.Hist)-1]
+		// every second faulted Commit: the failure of a stream sits at its close (flush), not at its open
+		w.closeFaults = last.Name == "commit" && last.K > 0 && executed%2 == 0
 		res := w.do(last)
 		if len(res) == 1 && res[0][0] == "panic" {
 			fail("panic:"+last.Name, short, res[0][1])
@@ -292,7 +300,7 @@ func cmdCacheCases(args []string) error {
 					inRuns = true
 				}
 			}
-			if !inRuns {
+			if !inRuns && !w.closeFaults { // (a failed close leaves a truncated file: not one of the model's runs, by construction)
 				noteDrift("commit", short, fmt.Sprintf("commit gave (%v, %s), not among the %d runs of the model", res, remoteNow.Key(), len(c.Runs)))
 			}
 			switch {
